@@ -149,13 +149,14 @@ class Check(PropCheck):
         for a in full:
             for b in full:
                 yield self.mk([a, b])
-        small = self.ops_alphabet(['foo', 'FOO'], ['v', ''], dots=False, sas=False) + [['sa', 'checked', ''], ['ra', 'checked'],
-                                                                                           ['dot', 'checked', True], ['dot', 'checked', False]]
+        small = [['sa', 'foo', 'v'], ['sa', 'foo', ''], ['sa', 'FOO', 'v'], ['sa', 'FOO', ''], ['ms', 'foo', 'v'], ['ms', 'FOO', ''],
+                 ['ra', 'foo'], ['ra', 'FOO'], ['md', 'Foo'], ['sa', 'checked', ''], ['ra', 'checked'], ['dot', 'checked', True],
+                 ['dot', 'checked', False]]
         if tier == 'thorough':
             mid = self.ops_alphabet(['foo', 'checked', 'FOO', 'a b'], ['v', '', 'say "hi"'], sas=False) + [['dot', 'id', '42'], ['ra', 'id']]
             for h in itertools.product(mid, repeat=3):
                 yield self.mk(h)
-            for h in itertools.product(small[:12], repeat=4):
+            for h in itertools.product(small[:11], repeat=4):
                 yield self.mk(h)
         else:
             for h in itertools.product(small, repeat=3):
